@@ -40,7 +40,7 @@ CLAIMS = {
     'C10': {
         'text': 'Decides the unit-filter decision table rows the property fixes, that every non-broadcast path executes once against '
                 'context[request.unit_id], that the broadcast branch (iff broadcast_enable and unit 0) iterates context.slaves() and executes in every iteration, once each, without sending, the gateway exception / silence for absent units, that every receive loop passes '
-                'context.slaves()/context.single and admits unit 0 under broadcast, the server-context routing/id interval, that contexts do not share default blocks, and that no truthiness test can replace the context handed to a server by a default one.',
+                'context.slaves()/context.single and admits unit 0 under broadcast and only then, the server-context routing/id interval, that contexts do not share default blocks, and that no truthiness test can replace the context handed to a server by a default one.',
         'note': 'Non-interference between unit datastores at run time follows from these routing facts plus C05 R2; it is not itself decided.',
         'technique': 'decision-table enumeration + path routing analysis + sibling agreement (static)',
     },
@@ -94,7 +94,7 @@ CLAIMS = {
         'text': 'Loop-variant analysis of the retry loop (initial value retries + 1, > 0 test, exactly one decrement per back-edge, one '
                 '_transact per iteration, no other repeated sender), the retry decision table enumerated over the loop-body paths '
                 'against the documented options (a reply counts as the caller\'s own only under equality of unit ids), exception-flow from _recv/_send through _transact, the five framers and execute '
-                '(what can escape a client call), the clean-exit state / close-on-fault discipline, that the serial client drains stale input before every write for every framing, that a short or empty first read raises, and that the time budget of the client polling loops is fixed before the loop.',
+                '(what can escape a client call), the clean-exit state / close-on-fault discipline, that the serial client drains stale input before every write for every framing, that a short or empty first read raises, and that the time budget of the client polling loops is fixed before the loop, and that every iteration of the RTU send wait loop sets the awaited state or waits on the deadline.',
         'note': 'Wall-clock bounds of blocking transport calls and the correctness of a following transaction are not decided. '
                 'Six genuine defects are listed as known findings.',
         'technique': 'loop-variant extraction + decision-table enumeration + interprocedural exception-flow summaries (static)',
@@ -120,7 +120,7 @@ CLAIMS = {
                 'character), same path (direct with the configured byte order vs. through the word helpers), decoder advance = '
                 'calcsize and slice [pointer-n:pointer]; WC table = calcsize; the two word helpers are compared as transformations '
                 '(split into network-order words, reverse iff wordorder Little, re-pack per word with the byte order) which makes them '
-                'an involution pair; register transport formats, build() padding, to_string() = join of the current payload on every path and reset() emptying it.',
+                'an involution pair; register transport formats, build() padding, to_string() = join of the current payload on every path, reset() emptying it, and the string format length taken from the bytes that are packed.',
         'note': 'struct is trusted for value-level round trips; these rules decide the layout agreement for all values at once.',
         'technique': 'writer/reader pair table + sibling transformation comparison via value propagation (static)',
     },
@@ -144,7 +144,7 @@ CLAIMS = {
         'text': 'Writer summaries of the five buildPacket methods are compared with the specified ADU layouts; receive-side agreement is '
                 'decided by affine arithmetic on the summaries (advanceFrame consumes exactly the built packet length given the meaning '
                 'of the header length, getFrame starts at the function-code offset and ends before the check value, MBAP header parse '
-                'format/binding = build format/binding, populateResult copies the ids, every MBAP length 2..254 is accepted, with default options no framer reads a header key it never defines); the RTU length oracle (_rtu_frame_size, '
+                'format/binding = build format/binding, populateResult copies the ids, every MBAP length 2..254 is accepted, with default options no framer reads a header key it never defines, receive-side struct codes are the send-side codes, a one-byte TLS PDU is a complete frame); the RTU length oracle (_rtu_frame_size, '
                 '_rtu_byte_count_pos, custom size functions) is compared with the spec layout of every class reachable through '
                 'lookupPduClass; transforms applied on send need an inverse on receive; checksum comparison shape and CRC constants.',
         'note': 'Numerical correctness of computeCRC/computeLRC (hence the on-wire CRC byte order) and payload-content sweeps are not decided. Three known findings.',
